@@ -224,10 +224,39 @@ pub fn run(ctx: &Ctx) -> Report {
                 // the same through the path-based constructor when the .shx sits next to the .shp
                 if !cfg!(miri) {
                     let path = format!("{}/{}.{}", dir, name, ext);
-                    match ShapeReader::from_path(&path) {
-                        Ok(mut rd) => o.push(("path_iter_idx", items(rd.iter_shapes(), cap))),
-                        Err(e) => o.push(("path_iter_idx", J::Arr(vec![J::obj(vec![("err", J::s(format!("open: {}", err_class(&e))))])]))),
+                    let n_idx = match ShapeReader::from_path(&path) {
+                        Ok(mut rd) => {
+                            o.push(("path_iter_idx", items(rd.iter_shapes(), cap)));
+                            rd.shape_count().unwrap_or(0)
+                        }
+                        Err(e) => {
+                            o.push(("path_iter_idx", J::Arr(vec![J::obj(vec![("err", J::s(format!("open: {}", err_class(&e))))])])));
+                            0
+                        }
+                    };
+                    // the one-line free functions on the same pair: they, too, go by the index
+                    o.push(("path_read_shapes_idx", items(shapefile::read_shapes(&path).map(|v| v.into_iter().map(Ok).collect::<Vec<_>>()).unwrap_or_else(|e| vec![Err(e)]).into_iter(), cap)));
+                    // ... and the complete reader with a table of n rows (row i holds i) next to the pair
+                    let dbf_path = format!("{}/{}.dbf", dir, name);
+                    let wrote = (|| -> Result<(), Error> {
+                        let mut w = crate::e_c10::table_builder().build_with_file_dest(&dbf_path)?;
+                        for i in 0..n_idx.min(cap) {
+                            w.write_record(&crate::e_c08::good_row(i))?;
+                        }
+                        Ok(())
+                    })();
+                    if wrote.is_ok() {
+                        let pairs: Vec<Result<Shape, Error>> = match shapefile::read(&path) {
+                            Err(e) => vec![Err(e)],
+                            Ok(v) => v
+                                .into_iter()
+                                .enumerate()
+                                .map(|(i, (s, row))| if crate::e_c08::row_tag(&row) == Some(i) { Ok(s) } else { Err(Error::InvalidShapeRecordSize) })
+                                .collect(),
+                        };
+                        o.push(("path_read_pairs_idx", items(pairs.into_iter(), cap)));
                     }
+                    let _ = std::fs::remove_file(&dbf_path);
                 }
             }
             J::obj(o)
